@@ -1,13 +1,18 @@
 """C16: teardown is complete - no stale connection state, no waiter left hanging.
 
 (M) specs/Stack/Teardown.tla model-checked by TLC: connection tables of controller / host /
-    device on three stacks (link 1 under test, link 2 bystander), per-connection registries, the
-    waiter set, Disconnect(side) and TransportLoss(side) enabled at every message boundary of a
-    multi-step procedure; invariants at Quiesce.
-(B) a catalogue of awaited procedures on real Devices (lib.c16_rig): each is run uncut to count its
-    N message boundaries, then cut at boundary k by {local disconnect, remote disconnect,
-    transport loss via Host.on_transport_lost()}, run 120 virtual seconds further, and the events
-    call / ret / cut / tables / registry / quiesce are validated by specs/Stack/TeardownTrace.tla.
+    device on three stacks (link 1 under test, link 2 bystander), per-connection registries (entries
+    name a connection AND its incarnation), the waiter set, procedures that complete or END IN
+    FAILURE, Disconnect(side) and TransportLoss(side) enabled at every message boundary, before and
+    after the procedure ended, re-establishment of a closed link (handle re-used) with a procedure on
+    the new incarnation; invariants at Quiesce, incl. LiveCompletes.
+(B) a catalogue of awaited procedures on real Devices (lib.c16_rig), succeeding and failing ones: each
+    is run uncut to count its N message boundaries, then cut at boundary k by {local disconnect, remote
+    disconnect, transport loss via Host.on_transport_lost(), transport loss signalled by a real
+    StreamPacketSource the Host is attached to}, run 120 virtual seconds further; after a disconnection
+    the link is established again and the same kind of procedure has to complete on it; link 1 is
+    initiated by A or (flip) by B; the events est / call / ret / cut / tables / registry / quiesce are
+    validated by specs/Stack/TeardownTrace.tla.
 """
 from __future__ import annotations
 
@@ -18,20 +23,29 @@ from lib import tlc
 
 LEVEL = "model_checking"
 
-QUIESCE_INVS = ["LayersAgree", "RegClean", "WaitersEnded"]
+QUIESCE_INVS = ["LayersAgree", "RegClean", "WaitersEnded", "LiveCompletes"]
 ALL_INVS = ["TypeOK"] + QUIESCE_INVS + ["Outcomes", "RegAlways", "TablesAlways"]
 MC_ACTIONS = ["CtrlEstablish", "HostEvt", "RequestDisconnect", "Disconnect", "RefuseRequest", "PeerTerm", "TransportLoss",
-              "Call", "OpSend", "RegDrop", "ProcStep", "Complete", "Release", "Timeout", "Quiesce"]
+              "Call", "OpSend", "RegDrop", "ProcStep", "Complete", "Fail", "Release", "Timeout", "Quiesce"]
 
-# named deviation of the model -> the quiescence invariant it must break
-BUGS = {
-    "flush_keeps_host": "LayersAgree",
-    "flush_keeps_regs": "RegClean",
-    "disc_keeps_regs": "RegClean",
-    "no_release": "WaitersEnded",
-    "late_readd": "RegClean",
-    "no_peer_event": "LayersAgree",
-}
+# (named deviation of the model, invariants checked, the one it must break, constants)
+_BUG_BASE = dict(conns=[1, 2], regs=["gatt_subscribers"], ops=[1], steps=2, maxest=1, maxcuts=2)
+_BUG_REEST = dict(conns=[1], regs=["smp_sessions"], ops=[1, 2], steps=1, maxest=2, maxcuts=1)
+BUGS = [
+    ("flush_keeps_host", QUIESCE_INVS, "LayersAgree", _BUG_BASE),
+    ("flush_keeps_regs", QUIESCE_INVS, "RegClean", _BUG_BASE),
+    ("disc_keeps_regs", QUIESCE_INVS, "RegClean", _BUG_BASE),
+    ("no_release", QUIESCE_INVS, "WaitersEnded", _BUG_BASE),
+    ("late_readd", QUIESCE_INVS, "RegClean", _BUG_BASE),
+    ("no_peer_event", QUIESCE_INVS, "LayersAgree", _BUG_BASE),
+    # a procedure that ended in failure takes its registry entry out of the fan-out: stale at the first quiescence,
+    # and (looking only at that clause) the procedure on the next incarnation of the link never completes
+    ("failed_keeps_regs", QUIESCE_INVS, "RegClean", _BUG_REEST),
+    ("failed_keeps_regs", ["LiveCompletes"], "LiveCompletes", _BUG_REEST),
+    ("central_keeps_regs", QUIESCE_INVS, "RegClean", _BUG_BASE),
+    ("loss_not_forwarded", QUIESCE_INVS, "LayersAgree", _BUG_BASE),
+    ("loss_not_forwarded", ["WaitersEnded"], "WaitersEnded", _BUG_BASE),
+]
 
 
 def _tick(rep, key, dt):
@@ -64,33 +78,63 @@ def mc_cfg(conns, regs, ops, steps, maxest, maxcuts, bugs=(), invs=ALL_INVS, pro
     )
 
 
-def model_check(ctx, rep):
+def model_check_start(ctx):
+    """start the TLC runs of the model (threads around subprocesses) -> handle for model_check_finish; the real-code
+    scenarios run in this process meanwhile"""
+    from concurrent.futures import ThreadPoolExecutor
+
     spec = ctx.spec("Stack", "Teardown.tla")
     if ctx.quick:
-        runs = [("q", dict(conns=[1, 2], regs=["gatt_subscribers"], ops=[1], steps=3, maxest=1, maxcuts=2))]
+        runs = [
+            # link under test + bystander, two cuts, one procedure
+            ("q", dict(conns=[1, 2], regs=["gatt_subscribers"], ops=[1], steps=3, maxest=1, maxcuts=2)),
+            # re-establishment: a procedure on incarnation 1 (completes, fails, is cut), one cut, the link comes back,
+            # a second procedure on incarnation 2
+            ("q2", dict(conns=[1], regs=["smp_sessions"], ops=[1, 2], steps=2, maxest=2, maxcuts=1)),
+        ]
     else:
         runs = [
             ("t1", dict(conns=[1, 2], regs=["gatt_subscribers", "data_queue"], ops=[1], steps=3, maxest=2, maxcuts=2)),
             ("t2", dict(conns=[1, 2], regs=["smp_sessions"], ops=[1, 2], steps=2, maxest=1, maxcuts=1)),
+            ("t3", dict(conns=[1], regs=["smp_sessions"], ops=[1, 2], steps=2, maxest=2, maxcuts=2)),
         ]
+    ex = ThreadPoolExecutor(max_workers=2 if ctx.quick else 1)
+    t0 = time.time()
+    futs = []
     for tag, k in runs:
         cfg = _write(ctx, f"teardown_{tag}.cfg", mc_cfg(**k, prop=True))
-        res = tlc.mc(spec, cfg, workers=16 if not ctx.quick else 8)
-        if res["violation"]:
-            raise tlc.TlcError(f"Teardown.tla violates {res['violation']} in the model itself ({tag})\n{res['out'][-2500:]}")
-        tlc.require_actions(res, MC_ACTIONS, f"Teardown {tag}")
-        rep.add_mc("Stack/Teardown.tla", res, k)
-        _tick(rep, "model_checking_s", res["wall_s"])
+        futs.append((tag, k, ex.submit(tlc.mc, spec, cfg, workers=16 if not ctx.quick else 6)))
+    return ex, futs, t0
+
+
+def model_check_finish(rep, handle):
+    ex, futs, t0 = handle
+    try:
+        for tag, k, fut in futs:
+            res = fut.result()
+            if res["violation"]:
+                raise tlc.TlcError(f"Teardown.tla violates {res['violation']} in the model itself ({tag})\n{res['out'][-2500:]}")
+            tlc.require_actions(res, MC_ACTIONS, f"Teardown {tag}")
+            rep.add_mc("Stack/Teardown.tla", res, k)
+            _tick(rep, "model_checking_cpu_wall_s", res["wall_s"])
+    finally:
+        ex.shutdown(wait=True)
+    _tick(rep, "model_checking_s", time.time() - t0)
 
 
 # ----------------------------------------------------------------------------- (B) scenarios
 def _run_one(job):
     """one scenario -> plain-data summary"""
+    import logging
+
     from lib import c16_rig as R
 
+    logging.disable(logging.CRITICAL)  # (worker processes do not inherit it)
+
     proc, kind, k, seed, max_delay = job[:5]
+    flip = bool(job[6]) if len(job) > 6 else False
     try:
-        sc = R.run_scenario(proc, kind, k, seed, max_delay)
+        sc = R.run_scenario(proc, kind, k, seed, max_delay, flip=flip)
     except Exception as e:  # a harness failure, reported by the parent as such
         import traceback
 
@@ -108,12 +152,38 @@ def summarize(sc, job):
         "cut_at": sc.cut_at,
         "unhandled": sc.unhandled[:5],
         "snap": {f"{d}:{r}": v for (d, r), v in sc.snap.items()},
+        "roles": {f"{d}:{c}": v for (d, c), v in sc.roles.items()},
+        "reestablished": sc.reestablished,
     }
 
 
+_POOL = None
+
+
+def start_pool(n):
+    """worker processes for the scenarios (spawned, so that they do not inherit the threads that wait for TLC; each
+    imports bumble from the same tree: `check` puts VERIF_REPO on sys.path at import time)"""
+    global _POOL
+    if n > 1 and _POOL is None:
+        import multiprocessing
+
+        _POOL = multiprocessing.get_context("spawn").Pool(processes=n)
+
+
+def stop_pool():
+    global _POOL
+    if _POOL is not None:
+        _POOL.terminate()
+        _POOL.join()
+        _POOL = None
+
+
 def execute(jobs, workers=1):
-    """~20 ms per scenario; run in-process (a process pool was measured slower on a busy machine)"""
-    return [_run_one(j) for j in jobs]
+    """20-40 ms per scenario.  Every scenario is seeded by its job alone, so the result does not depend on which
+    process runs it; the order of the results is the order of the jobs."""
+    if _POOL is None or len(jobs) < 8:
+        return [_run_one(j) for j in jobs]
+    return _POOL.map(_run_one, jobs, chunksize=8)
 
 
 def pick_ks(n, quick, rng, extra):
@@ -133,8 +203,8 @@ def pick_ks(n, quick, rng, extra):
 
 
 TRACE_CFG = (
-    "SPECIFICATION TraceSpec\nCONSTANTS\n  Conns = {1, 2}\n  Regs = {\"none\"}\n  OpIds = {1, 2, 3}\n"
-    "  Steps = 0\n  MaxEst = 1\n  MaxCuts = 1\n  Bugs = {}\nCHECK_DEADLOCK FALSE\n"
+    "SPECIFICATION TraceSpec\nCONSTANTS\n  Conns = {1, 2}\n  Regs = {\"none\"}\n  OpIds = {1, 2, 3, 4, 5, 6}\n"
+    "  Steps = 0\n  MaxEst = 2\n  MaxCuts = 1\n  Bugs = {}\nCHECK_DEADLOCK FALSE\n"
 )
 
 
@@ -142,7 +212,7 @@ def role_of(d, job, caller):
     from lib import c16_rig as R
 
     proc, kind = job[0], job[1]
-    cutter = caller if kind in (None, "transport_loss", "local_disconnect") else 1 - caller
+    cutter = caller if kind in (None, "transport_loss", "source_loss", "local_disconnect") else 1 - caller
     if d == "C":
         return "bystander"
     return "cut-side" if R.DEVS.index(d) == cutter else "peer-side"
@@ -178,24 +248,28 @@ def verdicts_of(ctx, rep, results):
         raise RuntimeError(f"{len(bad_runs)} scenario(s) crashed in the harness, first: {bad_runs[0]['job']}: {bad_runs[0]['error']}")
     cfg = _write(ctx, "teardown_trace.cfg", TRACE_CFG)
     spec = ctx.spec("Stack", "TeardownTrace.tla")
-    chunk = 1200  # traces per TLC run (one JSON file each); several runs go in parallel
+    # traces per TLC run (one JSON file, one worker each); several runs go in parallel
+    chunk = max(150, min(1200, -(-len(results) // 6)))
     parts = [results[i:i + chunk] for i in range(0, len(results), chunk)]
 
     def one(part):
         return tlc.trace_batch(spec, cfg, [r["events"] for r in part], tag="c16")
 
+    t0 = time.time()
     if len(parts) == 1:
         ress = [one(parts[0])]
     else:
         from concurrent.futures import ThreadPoolExecutor
 
-        with ThreadPoolExecutor(max_workers=4) as ex:
+        with ThreadPoolExecutor(max_workers=6) as ex:
             ress = list(ex.map(one, parts))
+    if rep is not None:
+        _tick(rep, "trace_validation_s", time.time() - t0)
     out = []
     for part, res in zip(parts, ress):
         if rep is not None:
             rep.extra["trace_states"] = rep.extra.get("trace_states", 0) + res["states"]
-            _tick(rep, "trace_validation_s", res["wall_s"])
+            _tick(rep, "trace_validation_tlc_s", res["wall_s"])
         for tid, v in sorted(best_verdicts(res, len(part)).items()):
             r = part[tid - 1]
             if v[0] == "ACCEPT":
@@ -220,12 +294,27 @@ def violations_of(r, labels):
             oid = int(lab[1])
             name, frame = r["hangs"].get(oid, (r["ops"][oid][0], "?"))
             out.append((f"hang:{name}:{kname}:{frame}", f"{name} never ends: still suspended in {frame} 120 virtual seconds after the cut"))
+        elif lab[0] == "stalled":
+            oid = int(lab[1])
+            name, frame = r["hangs"].get(oid, (r["ops"][oid][0], "?"))
+            out.append((f"stall:{name}:{kname}:{frame}",
+                        f"{name} never ends although its link is up at both ends and the peer is willing: still suspended in {frame} "
+                        f"(on the link re-established after the cut: state of the closed connection got in its way)"))
+        elif lab[0] == "outcome":
+            oid = int(lab[1])
+            name, o = r["ops"][oid]
+            out.append((f"again:{name}:{kname}:{o[1] if o else '?'}",
+                        f"{name} on the re-established link ends with {o[1] if o else '?'} instead of completing as it does on a fresh link"))
         elif lab[0] == "tables":
             out.append((f"tables:{lab[2]}:{lab[3]}:{kname}:{role_of(lab[1], r['job'], caller)}",
                         f"{lab[2]} table of stack {lab[1]} {'still lists a closed connection' if lab[3] == 'stale' else 'lacks a live connection'}"))
         else:
-            out.append((f"registry:{lab[2]}:{kname}:{role_of(lab[1], r['job'], caller)}",
-                        f"registry {lab[2]} of stack {lab[1]} still names a closed connection: {r['snap'].get(lab[1] + ':' + lab[2])}"))
+            # link-layer role of that stack on the connection(s) the stale entries name
+            stale = sorted(tuple(x) for x in lab[3]) if len(lab) > 3 else []
+            ll = "+".join(sorted({r.get("roles", {}).get(f"{lab[1]}:{x[0]}", "unknown") for x in stale})) or "?"
+            out.append((f"registry:{lab[2]}:{kname}:{role_of(lab[1], r['job'], caller)}:{ll}",
+                        f"registry {lab[2]} of stack {lab[1]} (link-layer {ll} there) still names a closed connection: [connection, incarnation] = "
+                        f"{[list(x) for x in stale]}"))
     return out
 
 
@@ -233,11 +322,14 @@ def judge(ctx, rep, results):
     """validate every trace with TeardownTrace.tla and turn the verdicts into violations"""
     nviol = 0
     for r, labels in zip(results, verdicts_of(ctx, rep, results)):
-        proc, kind, k, seed, max_delay, n_uncut = r["job"]
+        proc, kind, k, seed, max_delay, n_uncut = r["job"][:6]
+        flip = bool(r["job"][6]) if len(r["job"]) > 6 else False
         rep.traces += 1
         outcomes = tuple(sorted((n, o[0] if o else "pending") for n, o in r["ops"].values()))
-        rep.case((proc, kind, k, seed, max_delay), nontrivial=kind is not None,
-                 sample={"proc": proc, "cut": kind, "k": k, "N": n_uncut, "outcomes": outcomes} if (kind and k == 1) else None)
+        rep.case((proc, kind, k, seed, max_delay, flip), nontrivial=kind is not None,
+                 sample={"proc": proc, "cut": kind, "k": k, "N": n_uncut, "flip": flip, "outcomes": outcomes} if (kind and k == 1) else None)
+        if r.get("reestablished"):
+            rep.extra["reestablished"] = rep.extra.get("reestablished", 0) + 1
         st = rep.extra.setdefault("outcomes", {})
         for n, o in r["ops"].values():
             key = f"{n}:{(o[0] + ('/' + o[1] if o[1] else '')) if o else 'pending'}"
@@ -246,64 +338,99 @@ def judge(ctx, rep, results):
             nviol += 1
             rep.violation(
                 sig,
-                f"{proc} cut by {kind or 'none'} at boundary {k} of {n_uncut} (seed {seed}, delay {max_delay}): {what}",
-                {"proc": proc, "kind": kind, "k": k, "n": n_uncut, "seed": seed, "max_delay": max_delay, "labels": [list(x) for x in labels],
+                f"{proc} cut by {kind or 'none'} at boundary {k} of {n_uncut} (seed {seed}, delay {max_delay}{', link 1 initiated by B' if flip else ''}): {what}",
+                {"proc": proc, "kind": kind, "k": k, "n": n_uncut, "seed": seed, "max_delay": max_delay, "flip": flip, "labels": [list(x) for x in labels],
                  "ops": {str(i): list(map(str, o)) for i, o in r["ops"].items()}, "trace": r["events"]},
             )
     return nviol
 
 
-def plan_and_run(ctx, rep, procs, delay_cfgs, workers=1):
-    """delay_cfgs: (seed, max_delay, strata) - strata only matters in the quick tier"""
+def plan_and_run(ctx, rep, procs, cfgs, workers=1):
+    """cfgs: dicts seed / delay / flip / strata {cut kind: number of strata} - a kind that is not named is not run
+    with that configuration; the number of strata only matters in the quick tier; flip: only the procedures that
+    can run with the caller's stack as the link-layer peripheral"""
     from lib import c16_rig as R
 
-    # 1. uncut runs: N per (procedure, delay configuration)
-    strata = {(seed, md): ex for (seed, md, ex) in delay_cfgs}
-    base_jobs = [(p, None, None, seed, md, 0) for p in procs for (seed, md, _) in delay_cfgs]
+    # 1. uncut runs: N per (procedure, configuration)
     t0 = time.time()
+    base_jobs = []
+    for ci, c in enumerate(cfgs):
+        for p in procs:
+            if c["flip"] and not R.PROCS[p].flippable:
+                continue
+            base_jobs.append((p, None, None, c["seed"], c["delay"], 0, c["flip"], ci))
     base = execute(base_jobs, workers)
     for r in base:
         if "error" in r:
             raise RuntimeError(f"uncut run crashed {r['job']}: {r['error']}")
         if any(o is None for _, o in r["ops"].values()):
             raise RuntimeError(f"uncut run of {r['job'][0]} does not complete: the catalogue entry is broken ({r['hangs']})")
+        got = r["ops"][1][1][0]
+        if got != ("error" if R.PROCS[r["job"][0]].fails else "result"):
+            raise RuntimeError(f"uncut run of {r['job'][0]} ends with {r['ops'][1][1]}: the catalogue entry is broken")
     ncount = rep.extra.setdefault("boundaries", {})
     jobs = []
     for r in base:
-        p, _, _, seed, md, _ = r["job"]
+        p, _, _, seed, md, _, flip, ci = r["job"]
         n = r["boundaries"]
-        ncount[f"{p}/{seed}/{md}"] = n
+        ncount[f"{p}/{seed}/{md}{'/flip' if flip else ''}"] = n
         for kind in R.KINDS:
-            for k in pick_ks(n, ctx.quick, ctx.rng, strata[(seed, md)]):
-                jobs.append((p, kind, k, seed, md, n))
+            if kind not in cfgs[ci]["strata"]:
+                continue
+            for k in pick_ks(n, ctx.quick, ctx.rng, cfgs[ci]["strata"][kind]):
+                jobs.append((p, kind, k, seed, md, n, flip))
     results = execute(jobs, workers)
     _tick(rep, "scenarios_s", time.time() - t0)
-    judge(ctx, rep, base + results)  # the uncut runs are traces too (no cut: everything stays live, every call returns)
-    return len(jobs)
+    return base, results
 
 
 def run(ctx, rep):
     from lib import c16_rig as R
 
-    rep.rule = ("(M) Teardown.tla exhaustively within the constants; (B) every procedure of the catalogue x cut kind in {local disconnect, remote "
-                "disconnect, transport loss} x boundary k (thorough: every k in 0..N; quick: 0, 1, N-1, N and one seeded k per stratum) x delay configuration "
-                "(thorough: none / 2 ms / 50 ms; quick: 2 ms with 8 strata, none with 3); "
-                "one trace per scenario validated by TeardownTrace.tla; distinct = distinct (procedure, cut, k, delays)")
+    rep.rule = ("(M) Teardown.tla exhaustively within the constants; (B) every procedure of the catalogue (completing and failing ones) x cut kind in "
+                "{local disconnect, remote disconnect, transport loss by direct call, transport loss through a StreamPacketSource} x boundary k "
+                "(thorough: every k in 0..N; quick: 0, 1, N-1, N and one seeded k per stratum) x delay configuration x link 1 initiated by A / by B "
+                "(thorough: none / 2 ms / 50 ms, B-initiated 2 ms; quick: 2 ms with 8 strata (source loss 2), none with 3 (no source loss), B-initiated 2 ms with 1 (disconnections and source loss)); "
+                "after a disconnection cut the link is re-established and the procedure run again; one trace per scenario validated by "
+                "TeardownTrace.tla; distinct = distinct (procedure, cut, k, delays, initiator)")
     rep.assumptions = [
         "a message boundary is an HCI packet at the taps of the two stacks of the link under test; the cut is made from the event loop after boundary k",
         "a lost transport delivers nothing that was in flight in either direction; the controller of the lost side is left alone",
         "an operation that ends by a protocol time-out firing within 120 virtual seconds ended with an error (DESIGN Appendix D)",
         "a result returned after the cut is accepted (the exchange had completed); only not ending is a violation",
+        "on the re-established link the harness' peer is willing: the procedure that completes on a fresh link has to complete there",
+        "a registry entry is attributed to the incarnation of the Connection object it hangs on; where no object can be reached, to the latest connection with that handle",
         "virtual-time event loop preserves asyncio callback order; delays are order-preserving per direction",
     ]
-    model_check(ctx, rep)
-    procs = list(R.PROCS)
-    if ctx.quick:
-        # 2 ms delays: 8 strata of cut points; no delays (everything in one loop iteration): 3 strata
-        n = plan_and_run(ctx, rep, procs, [(ctx.seed + 1, 0.002, 8), (ctx.seed + 1, 0.0, 3)])
-    else:
-        n = plan_and_run(ctx, rep, procs, [(ctx.seed + 1, 0.0, 0), (ctx.seed + 1, 0.002, 0), (ctx.seed + 2, 0.05, 0)])
-    rep.extra["scenarios"] = n
+    start_pool(5)
+    mc = model_check_start(ctx)
+    try:
+        procs = list(R.PROCS)
+        dis = ("local_disconnect", "remote_disconnect")
+        if ctx.quick:
+            cfgs = [
+                # 2 ms delays
+                dict(seed=ctx.seed + 1, delay=0.002, flip=False, strata={**{k: 8 for k in dis}, "transport_loss": 8, "source_loss": 2}),
+                # no delays (everything of one exchange in one loop iteration)
+                dict(seed=ctx.seed + 1, delay=0.0, flip=False, strata={**{k: 3 for k in dis}, "transport_loss": 3}),
+                # link 1 initiated by B: the caller's stack is the peripheral
+                dict(seed=ctx.seed + 2, delay=0.002, flip=True, strata={**{k: 1 for k in dis}, "source_loss": 1}),
+            ]
+        else:
+            every = {k: 0 for k in R.KINDS}
+            cfgs = [
+                dict(seed=ctx.seed + 1, delay=0.0, flip=False, strata=every),
+                dict(seed=ctx.seed + 1, delay=0.002, flip=False, strata=every),
+                dict(seed=ctx.seed + 2, delay=0.05, flip=False, strata={k: 0 for k in R.KINDS if k != "source_loss"}),
+                dict(seed=ctx.seed + 2, delay=0.002, flip=True, strata=every),
+            ]
+        base, results = plan_and_run(ctx, rep, procs, cfgs)
+    finally:
+        stop_pool()
+        model_check_finish(rep, mc)
+    judge(ctx, rep, base + results)  # the uncut runs are traces too (no cut: everything stays live, every call returns)
+    rep.extra["scenarios"] = len(results)
+    print("C16 timing:", rep.extra.get("timing"), "trace_states:", rep.extra.get("trace_states"), "re-established:", rep.extra.get("reestablished"))
     rep.exhaustive = not ctx.quick
     if not ctx.quick:
         selftest(ctx, rep)
@@ -313,13 +440,14 @@ def replay(ctx, rep):
     from lib import c16_rig as R
 
     r = ctx.replay["replay"]
-    sc = R.run_scenario(r["proc"], r["kind"], r["k"], r["seed"], r["max_delay"])
+    sc = R.run_scenario(r["proc"], r["kind"], r["k"], r["seed"], r["max_delay"], flip=bool(r.get("flip")))
     for e in sc.events:
         print({k: v for k, v in e.items() if v not in ("", 0, [])} if e["e"] not in ("tables", "registry", "quiesce") else e)
     print("operations:", {oid: (d[0], d[1]) for oid, d in sc.details.items()})
     print("still pending after 120 virtual seconds:", sc.hangs)
     print("boundaries seen:", sc.boundaries, "cut made at:", sc.cut_at, "unhandled loop exceptions:", sc.unhandled[:3])
-    judge(ctx, rep, [summarize(sc, (r["proc"], r["kind"], r["k"], r["seed"], r["max_delay"], r.get("n", 0)))])
+    print("link 1 re-established:", sc.reestablished)
+    judge(ctx, rep, [summarize(sc, (r["proc"], r["kind"], r["k"], r["seed"], r["max_delay"], r.get("n", 0), bool(r.get("flip"))))])
 
 
 def _sigs_of(ctx, results):
@@ -339,14 +467,22 @@ def selftest(ctx, rep):
 
     results = {}
     spec = ctx.spec("Stack", "Teardown.tla")
-    # 1. model deviations
-    for bug, inv in BUGS.items():
-        cfg = _write(ctx, f"teardown_bug_{bug}.cfg", mc_cfg([1, 2], ["gatt_subscribers"], [1], 2, 1, 2, bugs=[bug], invs=QUIESCE_INVS, prop=False))
+    # 1. model deviations (several TLC runs at a time)
+    from concurrent.futures import ThreadPoolExecutor
+
+    def one_bug(item):
+        i, (bug, invs, inv, k) = item
+        cfg = _write(ctx, f"teardown_bug_{i}_{bug}.cfg", mc_cfg(**k, bugs=[bug], invs=invs, prop=False))
         res = tlc.mc(spec, cfg, workers=4, coverage=False)
-        results[f"model:{bug}"] = res["violation"] == f"invariant {inv}"
+        return f"model:{bug}:{inv}", res["violation"] == f"invariant {inv}"
+
+    with ThreadPoolExecutor(max_workers=4) as ex:
+        results.update(dict(ex.map(one_bug, enumerate(BUGS))))
     # 2. corrupted traces
-    job = ("gatt_read", "remote_disconnect", 2, ctx.seed + 1, 0.002, 6)
+    job = ("gatt_read", "remote_disconnect", 2, ctx.seed + 1, 0.002, 6, False)
     good = summarize(R.run_scenario(*job[:5]), job)
+    if not good["reestablished"]:
+        raise RuntimeError("self-test scenario did not re-establish link 1")
     base_sigs = _sigs_of(ctx, [good])[0]  # whatever the tree itself does wrong in this scenario
 
     def corrupt(fn):
@@ -357,22 +493,55 @@ def selftest(ctx, rep):
     def drop_ret(ev):
         i = next(i for i, e in enumerate(ev) if e["e"] == "ret" and e["o"] == 1)
         del ev[i]
-        next(e for e in ev if e["e"] == "quiesce")["S"] = [1]
+        for e in ev:
+            if e["e"] == "quiesce":
+                e["S"] = [1]
 
     def last(ev, kind, d, key, val):
         return [e for e in ev if e["e"] == kind and e["d"] == d and e[key] == val][-1]
 
+    def first(ev, kind, d, key, val):
+        """the observation of the first check-point (before the link is re-established); [0] of the tables is the one
+        taken before the call"""
+        xs = [e for e in ev if e["e"] == kind and e["d"] == d and e[key] == val]
+        return xs[1] if kind == "tables" else xs[0]
+
+    def reg(ev, which, d, name):
+        """the entry list of registry `name` of stack d at the first / last check-point"""
+        xs = [e for e in ev if e["e"] == "registry" and e["d"] == d]
+        return next(row for row in xs[0 if which == "first" else -1]["R"] if row["r"] == name)["S"]
+
+    def again_fails(ev):
+        o = [e for e in ev if e["e"] == "call"][-1]["o"]
+        next(e for e in ev if e["e"] == "ret" and e["o"] == o)["out"] = "error"
+
+    def again_stalls(ev):
+        o = [e for e in ev if e["e"] == "call"][-1]["o"]
+        ev.remove(next(e for e in ev if e["e"] == "ret" and e["o"] == o))
+        [e for e in ev if e["e"] == "quiesce"][-1]["S"] = [o]
+
     cases = {
+        # first check-point (link closed)
+        "trace:first-registry-stale": (lambda ev: reg(ev, "first", "A", "smp_sessions").append([1, 1]), "registry:smp_sessions:remote_disconnect:peer-side"),
+        "trace:first-host-table-stale": (lambda ev: first(ev, "tables", "B", "layer", "host")["S"].append(1), "tables:host:stale:remote_disconnect:cut-side"),
+        # second check-point (link re-established, procedure run again)
+        "trace:old-incarnation-in-registry": (lambda ev: reg(ev, "last", "B", "smp_sessions").append([1, 1]), "registry:smp_sessions:remote_disconnect:cut-side"),
+        "trace:again-ends-in-error": (again_fails, "again:gatt_read.again:remote_disconnect"),
+        "trace:again-never-ends": (again_stalls, "stall:gatt_read.again:remote_disconnect"),
         "trace:ret-dropped": (drop_ret, "hang:gatt_read:remote_disconnect"),
-        "trace:host-table-stale": (lambda ev: last(ev, "tables", "A", "layer", "host")["S"].append(1), "tables:host:stale:remote_disconnect:peer-side"),
+        "trace:host-table-stale": (lambda ev: last(ev, "tables", "A", "layer", "host")["S"].append(9), "tables:host:stale:remote_disconnect:peer-side"),
         "trace:device-table-missing": (lambda ev: last(ev, "tables", "A", "layer", "device")["S"].remove(2), "tables:device:missing:remote_disconnect:peer-side"),
         "trace:bystander-table-missing": (lambda ev: last(ev, "tables", "C", "layer", "ctrl")["S"].remove(2), "tables:ctrl:missing:remote_disconnect:bystander"),
-        "trace:registry-stale": (lambda ev: last(ev, "registry", "B", "r", "smp_sessions")["S"].append(1), "registry:smp_sessions:remote_disconnect:cut-side"),
-        "trace:unknown-handle": (lambda ev: last(ev, "registry", "A", "r", "l2cap_channels")["S"].append(9), "registry:l2cap_channels:remote_disconnect:peer-side"),
-        "trace:cut-dropped": (lambda ev: ev.remove(next(e for e in ev if e["e"] == "cut")), "tables:"),
+        "trace:registry-stale": (lambda ev: reg(ev, "last", "C", "smp_sessions").append([1, 2]), "registry:smp_sessions:remote_disconnect:bystander"),
+        "trace:unknown-handle": (lambda ev: reg(ev, "last", "A", "l2cap_channels").append([9, 0]), "registry:l2cap_channels:remote_disconnect:peer-side"),
     }
     names = list(cases)
-    for name, sigs in zip(names, _sigs_of(ctx, [corrupt(cases[n][0]) for n in names])):
+    # the cut event dropped (from a trace without re-establishment: the spec could not follow a second `est` of a link
+    # it believes up)
+    once = summarize(R.run_scenario(*job[:5], again=False), job)
+    once["events"].remove(next(e for e in once["events"] if e["e"] == "cut"))
+    cases["trace:cut-dropped"] = (None, "tables:")
+    for name, sigs in zip(names + ["trace:cut-dropped"], _sigs_of(ctx, [corrupt(cases[n][0]) for n in names] + [once])):
         results[name] = any(x.startswith(cases[name][1]) for x in sigs if x not in base_sigs)
 
     # 3. shims on the real objects
@@ -400,7 +569,38 @@ def selftest(ctx, rep):
     def shim_smp_session_kept(net):
         net[0].smp_manager.on_session_end = lambda session: None
 
+    def shim_failed_session_detaches(net):
+        # a pairing session that failed stops listening to its connection (so it never hears the disconnection)
+        for dev in (net[0], net[1]):
+            m = dev.smp_manager
+
+            def failed(session, reason, orig=m.on_pairing_failure):
+                session.connection.remove_listener(session.connection.EVENT_DISCONNECTION, session.on_disconnection)
+                orig(session, reason)
+
+            m.on_pairing_failure = failed
+
+    def shim_source_keeps_loss_to_itself(net):
+        for src in net.sources:
+            src.sink = None  # BaseSource.on_transport_lost() has nobody to tell
+
+    def shim_gatt_cleanup_as_peripheral_only(net):
+        from bumble import hci
+
+        for dev in net.devices:
+            gs = dev.gatt_server
+
+            def on_disconnection(bearer, orig=gs.on_disconnection):
+                if getattr(bearer, "role", None) == hci.Role.PERIPHERAL:
+                    orig(bearer)
+
+            gs.on_disconnection = on_disconnection
+
     shims = {
+        "shim:failed-session-detaches": (shim_failed_session_detaches, ("pair_rejected", "remote_disconnect", 50), "registry:smp_sessions:"),
+        "shim:failed-session-captures-next-pairing": (shim_failed_session_detaches, ("pair_rejected", "local_disconnect", 50), "stall:pair_rejected.again:"),
+        "shim:source-keeps-loss-to-itself": (shim_source_keeps_loss_to_itself, ("gatt_read", "source_loss", 2), ("tables:host:stale:source_loss", "hang:gatt_read:source_loss")),
+        "shim:gatt-cleanup-as-peripheral-only": (shim_gatt_cleanup_as_peripheral_only, ("hci_command", "remote_disconnect", 1), "registry:gatt_subscribers:remote_disconnect:peer-side:central"),
         "shim:device-forgets-gatt-server": (shim_no_gatt_cleanup, ("gatt_indicate", "remote_disconnect", 3), "registry:gatt_subscribers:"),
         "shim:host-keeps-connection": (shim_host_keeps_connection, ("gatt_write", "remote_disconnect", 2), "tables:host:stale:"),
         "shim:queue-not-flushed": (shim_no_queue_flush, ("data_queue_drain", "remote_disconnect", 8), ("registry:data_queue:", "hang:data_queue_drain:")),
